@@ -328,7 +328,7 @@ Finish ==
   /\ l = Len(Rec) + 1
   /\ JsonSerialize(IOEnv.OUT,
        [ consumed |-> l - 1, lines |-> Len(Rec), nbad |-> nbad, bad |-> bad, bad_by |-> badBy,
-         hits |-> hits, nclasses |-> Cardinality(classes), scenarios |-> scn, evals |-> evals,
+         hits |-> hits, nclasses |-> Cardinality(classes), classes |-> SetToSeq(classes), scenarios |-> scn, evals |-> evals,
          hdr_dec_words |-> tb.hdrNext, hdr_enc_triples |-> tb.encCount,
          ext_new_ids |-> [d \in 0..10 |-> tb.extNext[d]] ])
   /\ l' = l + 1
